@@ -453,10 +453,276 @@ fn fam_lzma2(ctx: &CaseCtx, cov: &mut Cov) -> CaseOut {
     out
 }
 
+// ---------------------------------------------------------------------------
+// Histories that bring PART of the adaptive state back to exactly its initial
+// value while the rest is dirty. An adaptive probability returns to 0x400
+// after the bit sequences below (found by enumeration), so "this cell still
+// looks untouched" does not imply "nothing was decoded". The two cells every
+// non-empty decode touches first are literal context 0 and is_match[0][0].
+
+const CYCLES: [&[u8]; 6] = [
+    &[0, 0, 1, 1, 1, 0],
+    &[1, 1, 0, 0, 0, 1],
+    &[0, 0, 1, 1, 0, 1, 1, 0],
+    &[0, 1, 1, 1, 0, 0, 0, 1],
+    &[1, 0, 0, 0, 1, 1, 1, 0],
+    &[1, 1, 0, 0, 1, 0, 0, 1],
+];
+
+/// Byte suffixes (8 - d bits) for `n` visits of a literal-tree node at depth `d`
+/// such that every node above depth `depth` sees whole return cycles.
+fn balanced(rng: &mut Rng, d: u32, depth: u32, n: usize, plen: usize) -> Vec<u8> {
+    if d == 8 {
+        return vec![0; n];
+    }
+    if d >= depth {
+        return (0..n).map(|_| (rng.below(1 << (8 - d))) as u8).collect();
+    }
+    let pats: Vec<&[u8]> = CYCLES.iter().copied().filter(|p| p.len() == plen).collect();
+    let pat = *rng.pick(&pats);
+    let ones = balanced(rng, d + 1, depth, n / 2, plen);
+    let zeros = balanced(rng, d + 1, depth, n / 2, plen);
+    let (mut i1, mut i0) = (0, 0);
+    let mut v = Vec::with_capacity(n);
+    for i in 0..n {
+        let bit = pat[i % plen];
+        let sub = if bit == 1 {
+            i1 += 1;
+            ones[i1 - 1]
+        } else {
+            i0 += 1;
+            zeros[i0 - 1]
+        };
+        v.push((bit << (7 - d)) | sub);
+    }
+    v
+}
+
+fn lit_state(s: usize) -> usize {
+    if s < 4 {
+        0
+    } else if s < 10 {
+        s - 3
+    } else {
+        s - 6
+    }
+}
+
+fn fam_returning(ctx: &CaseCtx, cov: &mut Cov) -> CaseOut {
+    let mut out = CaseOut::default();
+    let mut rng = ctx.rng();
+    let variant = rng.below(2);
+    let mut prog: Vec<Sym> = Vec::new();
+    let mut marker_ok = true;
+    let props;
+    if variant == 0 {
+        // literal context 0 returns to its initial state down to tree depth `depth`
+        let lp = rng.range(1, 4) as u32;
+        let lc = if rng.chance(1, 6) { rng.below(9) as u32 } else { rng.below(5) as u32 };
+        props = Props::new(lc, lp, rng.below(5) as u32);
+        let depth = if rng.chance(1, 2) { 8 } else { rng.range(1, 8) as u32 };
+        let plen = if rng.chance(3, 4) { 6 } else { 8 };
+        let n = plen << (depth - 1);
+        let targets = balanced(&mut rng, 0, depth, n, plen);
+        let period = 1usize << lp;
+        for t in targets {
+            prog.push(Sym::Lit(t));
+            for k in 1..period {
+                let mut f = rng.below(256) as u8;
+                if k == period - 1 && lc > 0 {
+                    f &= (0xFFu32 >> lc) as u8;
+                }
+                prog.push(Sym::Lit(f));
+            }
+        }
+        cov.inc("returning_lit_depth", depth);
+    } else {
+        // is_match[0][0] returns to its initial value
+        props = Props::new(rng.below(5) as u32, rng.below(4) as u32, rng.below(5) as u32);
+        let pats: Vec<&[u8]> = CYCLES.iter().copied().filter(|p| p[0] == 0).collect();
+        let pat = *rng.pick(&pats);
+        let rounds = rng.range(1, 4) as usize * pat.len();
+        let (mut state, mut pos, mut v) = (0usize, 0u64, 0usize);
+        let pmask = (1u64 << props.pb) - 1;
+        while v < rounds && prog.len() < 5000 {
+            let at_cell = state == 0 && (pos & pmask) == 0;
+            let want_match = if at_cell {
+                v += 1;
+                pat[(v - 1) % pat.len()] == 1
+            } else {
+                pos > 0 && rng.chance(1, 5)
+            };
+            if want_match {
+                let len = rng.range(2, 9) as u32;
+                prog.push(Sym::Match { dist: rng.range(1, pos.min(8)) as u32, len });
+                pos += len as u64;
+                state = if state < 7 { 7 } else { 10 };
+            } else {
+                prog.push(Sym::Lit(rng.below(256) as u8));
+                pos += 1;
+                state = lit_state(state);
+            }
+        }
+        if v < rounds {
+            out.harness_error("is_match[0][0] cycle not completed");
+            return out;
+        }
+        // an end marker is coded as a match: it must not touch the cell again
+        marker_ok = !(state == 0 && (pos & pmask) == 0);
+    }
+    // sometimes leave the coder in a non-initial automaton state / with used distances
+    if variant == 0 && rng.chance(1, 3) {
+        for _ in 0..rng.range(1, 3) {
+            prog.push(Sym::Match { dist: rng.range(1, 8) as u32, len: rng.range(2, 20) as u32 });
+        }
+    }
+    let marker = marker_ok && rng.chance(1, 2);
+    if marker {
+        prog.push(Sym::Eos);
+    }
+    // encode and confirm the precondition on the reference model
+    let mut model = crate::refmodel::lzma::Model::new(props);
+    let mut hist = Vec::new();
+    let mut enc = crate::refmodel::lzma::Encoder::new(&mut model, &mut hist);
+    if let Err(e) = enc.push_all(&prog) {
+        out.harness_error(format!("encode: {:?}", e));
+        return out;
+    }
+    let (x, _, _) = enc.finish();
+    let clean_cell = if variant == 0 { model.lit_row(0)[1] == 0x400 } else { model.is_match_cell(0, 0) == 0x400 };
+    let others_dirty = model.lit_dirty() > 0;
+    if !clean_cell || !others_dirty {
+        out.harness_error("constructed history does not have the intended state");
+        return out;
+    }
+    if variant == 0 && model.lit_row(0).iter().all(|&p| p == 0x400) {
+        cov.name("returning.literal_context0_fully_clean_others_dirty", 1);
+    }
+    cov.inc("returning_variant", variant as u32);
+    let xlen = hist.len() as u64;
+    let dict: u32 = 4096;
+    let initial_size = if marker && rng.chance(1, 2) { None } else { Some(xlen) };
+    let mut dec = match sut::raw_lzma_new(props.lc, props.lp, props.pb, dict, initial_size, None) {
+        Ok(d) => d,
+        Err(v) => {
+            out.harness_error(format!("constructor: {}", v.short()));
+            return out;
+        }
+    };
+    let c = sut::raw_lzma_decompress(&mut dec, &x, ReaderKind::Slice, &SharedSink::new(), &sut::new_obs(u64::MAX));
+    if c.verdict.is_abnormal() {
+        return out;
+    }
+    if !c.verdict.is_ok() {
+        out.harness_error(format!("constructed history rejected: {}", c.verdict.short()));
+        return out;
+    }
+    // follow-up streams
+    let mut cands: Vec<(Vec<u8>, u64, bool)> = Vec::new();
+    for k in 0..6 {
+        let mk = rng.chance(1, 2);
+        let pr: Vec<Sym> = if k < 2 {
+            let mut p: Vec<Sym> = (0..rng.range(20, 400)).map(|_| Sym::Lit(rng.below(256) as u8)).collect();
+            if mk {
+                p.push(Sym::Eos);
+            }
+            p
+        } else {
+            let np = rng.range(5, 400) as usize;
+            rich_program(&mut rng, np, mk)
+        };
+        if let Ok((pl, _, h)) = crate::refmodel::lzma::encode_program(&pr, props) {
+            cands.push((pl, h.len() as u64, mk));
+        }
+    }
+    if cands.is_empty() {
+        out.harness_error("no follow-up stream");
+        return out;
+    }
+    let y0 = &cands[0];
+    let arg: Option<Option<u64>> = match rng.below(3) {
+        0 => None,
+        _ => Some(if y0.2 && rng.chance(1, 2) { None } else { Some(y0.1) }),
+    };
+    if sut::guarded(|| dec.reset(arg)).is_err() {
+        out.violate("C14/lzma/reset-panicked", format!("reset({:?}) panicked after a part-returning history", arg), J::Null);
+        return out;
+    }
+    let size_in_effect = match arg {
+        None => initial_size,
+        Some(s) => s,
+    };
+    let fresh = match sut::raw_lzma_new(props.lc, props.lp, props.pb, dict, size_in_effect, None) {
+        Ok(d) => d,
+        Err(v) => {
+            out.harness_error(format!("constructor: {}", v.short()));
+            return out;
+        }
+    };
+    let digest_differs = dec.verif_state_digest() != fresh.verif_state_digest();
+    cov.name("state_digest_compared_after_reset", 1);
+    if digest_differs {
+        out.warnings.push("state digest of a reset LzmaDecoder differs from a fresh one after a part-returning history".into());
+    }
+    let n_obs = if digest_differs { cands.len() } else { 1 };
+    for (i, (y, _, _)) in cands.iter().take(n_obs).enumerate() {
+        // replay from scratch for every follow-up stream after the first
+        let mut a = if i == 0 {
+            None
+        } else {
+            let mut d = match sut::raw_lzma_new(props.lc, props.lp, props.pb, dict, initial_size, None) {
+                Ok(d) => d,
+                Err(_) => break,
+            };
+            let _ = sut::raw_lzma_decompress(&mut d, &x, ReaderKind::Slice, &SharedSink::new(), &sut::new_obs(u64::MAX));
+            let _ = sut::guarded(|| d.reset(arg));
+            Some(d)
+        };
+        let mut b = match sut::raw_lzma_new(props.lc, props.lp, props.pb, dict, size_in_effect, None) {
+            Ok(d) => d,
+            Err(_) => break,
+        };
+        let run = |d: &mut lzma_rs::decompress::raw::LzmaDecoder| {
+            let sink = SharedSink::new();
+            let obs = sut::new_obs(u64::MAX);
+            let c = sut::raw_lzma_decompress(d, y, ReaderKind::Slice, &sink, &obs);
+            let syms = obs.borrow().syms;
+            (Outcome { verdict: c.verdict, out: sink.bytes(), consumed: c.consumed }, syms)
+        };
+        let (ra, syms) = match a.as_mut() {
+            Some(d) => run(d),
+            None => run(&mut dec),
+        };
+        let (rb, _) = run(&mut b);
+        out.evals += 1;
+        cov.inc("observation_verdict", ra.verdict.is_ok() as u32);
+        if syms > 0 {
+            out.nontrivial.push(case_hash(&[y, &x]));
+        }
+        if !ra.same(&rb) {
+            out.violate(
+                if ra.verdict.is_abnormal() { format!("C14/lzma/{}", verdict_sig(&ra.verdict)) } else { "C14/lzma/reset-differs-from-new".to_string() },
+                format!(
+                    "lc{} lp{} pb{}: after a history that returns {} to its initial value while other probabilities are dirty, reset({:?}) leaves a decoder that differs from a new one: reset decoder: {}; fresh decoder: {}",
+                    props.lc, props.lp, props.pb,
+                    if variant == 0 { "literal context 0" } else { "is_match[0][0]" },
+                    arg, ra.short(), rb.short()
+                ),
+                J::obj().set("x_hex", J::s(crate::util::hex_trunc(&x, 2048))).set("y_hex", J::s(crate::util::hex_trunc(y, 2048))),
+            );
+            return out;
+        }
+    }
+    out.sample = Some(J::obj().set("decoder", J::s("LzmaDecoder")).set("props", J::s(format!("{:?}", props))).set("history", J::s(format!("part-returning history variant {} ({} symbols), reset({:?}), y", variant, prog.len(), arg))));
+    out
+}
+
 fn label(group: &str, i: u32) -> String {
     match group {
         "op" => OPS[i as usize].to_string(),
         "history_decompress_verdict" | "observation_verdict" => ["Err", "Ok"][i as usize].to_string(),
+        "returning_variant" => ["literal context 0 returns to 0x400", "is_match[0][0] returns to 0x400"][i as usize].to_string(),
+        "returning_lit_depth" => format!("tree depth {}", i),
         _ => std_label(group, i),
     }
 }
@@ -465,6 +731,9 @@ fn floors(_: Tier, cov: &Cov) -> Vec<String> {
     let mut m = Vec::new();
     if cov.group_nonzero("op") < 6 || cov.group_nonzero("history_decompress_verdict") < 2 || cov.group_nonzero("observation_verdict") < 2 {
         m.push("operation kinds / verdict classes incomplete".into());
+    }
+    if cov.group_nonzero("returning_variant") < 2 || cov.get_named("returning.literal_context0_fully_clean_others_dirty") == 0 {
+        m.push("part-returning histories incomplete".into());
     }
     if cov.get_named("debug_state_identical_after_reset") == 0 {
         m.push("Debug witness never compared equal".into());
@@ -476,7 +745,7 @@ pub fn monitor(tier: Tier) -> Monitor {
     Monitor {
         id: "C14",
         level: "exploration",
-        rule: "cases = histories new; (decompress(valid | truncated | corrupt | wrong size) | reset(None) | reset(Some(size)))*; reset(arg); decompress(y) for raw LzmaDecoder (all lc/lp/pb, dict 64 / 4096 / 64 KiB) and Lzma2Decoder (streams that change properties and end on lc+lp != 0; y sometimes starts with a chunk that carries no properties, so it exposes the decoder's initial properties), 1..12 (thorough 200) reuse cycles per history; after every reset the decode of y is compared - verdict incl. error text, bytes, consumed count - with a freshly constructed decoder given the size in effect (3-line model: reset(None) keeps it); a digest of the whole adaptive state (hook) is compared after EVERY reset, and when it differs the recorded history is replayed on new decoders against up to 44 follow-up streams to find one that tells the two apart; evaluations = observations; non-trivial = the reset decoder decoded >= 1 symbol",
+        rule: "cases = histories new; (decompress(valid | truncated | corrupt | wrong size) | reset(None) | reset(Some(size)))*; reset(arg); decompress(y) for raw LzmaDecoder (all lc/lp/pb, dict 64 / 4096 / 64 KiB) and Lzma2Decoder (streams that change properties and end on lc+lp != 0; y sometimes starts with a chunk that carries no properties, so it exposes the decoder's initial properties), 1..12 (thorough 200) reuse cycles per history; after every reset the decode of y is compared - verdict incl. error text, bytes, consumed count - with a freshly constructed decoder given the size in effect (3-line model: reset(None) keeps it); a digest of the whole adaptive state (hook) is compared after EVERY reset, and when it differs the recorded history is replayed on new decoders against up to 44 follow-up streams to find one that tells the two apart; family part_returning: histories constructed so that the cells every decode touches first (literal context 0 down to a chosen tree depth, or is_match[0][0]) return exactly to their initial value through the 6/8-step return cycles of the probability update while other cells are dirty (precondition confirmed on the reference model), then reset and compare as above; evaluations = observations; non-trivial = the reset decoder decoded >= 1 symbol",
         assumptions: vec![
             "both runs use identical reader and sink types and the code is deterministic, so every observable must agree".into(),
             "a Debug-output difference alone is recorded as a warning (a behaviourally irrelevant cache would be legal)".into(),
@@ -484,6 +753,7 @@ pub fn monitor(tier: Tier) -> Monitor {
         families: vec![
             Family { name: "lzma", count: tier.pick(25_000, 400_000), priority: false, enumerated: false, run: fam_lzma },
             Family { name: "lzma2", count: tier.pick(15_000, 250_000), priority: false, enumerated: false, run: fam_lzma2 },
+            Family { name: "part_returning", count: tier.pick(1_500, 30_000), priority: false, enumerated: false, run: fam_returning },
         ],
         label,
         floors,
